@@ -34,10 +34,13 @@ static void sc_default_loop(void) {
     fi_api = "-";
     ev("default_loop=%s", dl ? "ok" : "ENULL");
     if (dl == NULL) {
+      /* BROKEN only if no fault was injected into the retry itself: a fault shape that persists (LIMIT) or a
+         second fault of a pair may legitimately make it fail again */
+      int f0 = fi_fired;
       fi_api = "default_loop_retry";
       dl = uv_default_loop();
       fi_api = "-";
-      ev("default_loop_retry=%s", dl ? "ok" : "BROKEN");
+      ev("default_loop_retry=%s", dl ? "ok" : (fi_fired == f0 ? "BROKEN" : "ENULL"));
       if (dl == NULL) continue;
     }
     dl_fired = 0;
